@@ -1,5 +1,6 @@
 import TlsProofs.Codec
 import TlsProofs.CodecLoop
+import TlsProofs.Ssl2
 import TlsModel.Msgs
 /-
   C15 — every message and extension codec round-trips and enforces its framing exactly.
@@ -291,6 +292,71 @@ example : (Parser.lcList (Parser.liftDecode (decode (varBytes 1) 0)) 1 (Parser.n
 example : ∃ e, Parser.lcList (Parser.liftDecode (decode (varBytes 1) 0)) 1 (Parser.new [3, 1, 7, 1, 8, 9]) =
     .error e := ⟨.readPast, by decide⟩
 
+/-! ## SSLv2-framed structures (lengths grouped in front of the data; outside the `Fmt` language) -/
+
+/-- RecordHeader2: `parse(write(h)) = h`, whatever follows the header -/
+theorem ssl2_recordHeader_roundtrip (l p : Nat) (e : Bool) (b r : Bytes)
+    (h : Ssl2.rh2Encode l p e = some b) : Ssl2.rh2Decode (b ++ r) = .ok ((l, p, e), r) :=
+  Ssl2.rh2_decode_encode l p e b r h
+
+/-- RecordHeader2.write refuses exactly the lengths beyond 15 bits (2-byte header) / 14 bits
+    (3-byte header) and paddings beyond a byte; it never masks them -/
+theorem ssl2_recordHeader_overflow (l p : Nat) (e : Bool) :
+    Ssl2.rh2Encode l p e = none ↔
+      ((p = 0 ∧ e = false) ∧ 0x8000 ≤ l) ∨ (¬ (p = 0 ∧ e = false) ∧ (0x4000 ≤ l ∨ 256 ≤ p)) :=
+  Ssl2.rh2_encode_none_iff l p e
+
+example : Ssl2.rh2Encode 0x7fff 0 false = some [0xff, 0xff] := by decide
+example : Ssl2.rh2Encode 0x8000 0 false = none := by decide
+example : Ssl2.rh2Decode [0x40, 0x05, 0x07, 9] = .ok ((5, 7, true), [9]) := by decide
+
+/-- the `len1 len2 len3 data1 data2 data3` block of SSLv2 hellos round-trips … -/
+theorem ssl2_lengths_roundtrip (d1 d2 d3 b r : Bytes) (h : Ssl2.enc3 d1 d2 d3 = some b) :
+    Ssl2.dec3 (b ++ r) = .ok ((d1, d2, d3), r) :=
+  Ssl2.dec3_enc3 d1 d2 d3 b r h
+
+/-- … consumes exactly the three declared lengths … -/
+theorem ssl2_lengths_exact (b d1 d2 d3 r : Bytes) (h : Ssl2.dec3 b = .ok ((d1, d2, d3), r)) :
+    ∃ e, Ssl2.enc3 d1 d2 d3 = some e ∧ e ++ r = b :=
+  Ssl2.enc3_dec3 b d1 d2 d3 r h
+
+/-- … and is refused when the declared total runs past the input -/
+theorem ssl2_lengths_truncated (b : Bytes) (h : b.length < 6 ∨
+    (b.drop 6).length < beDecode (b.take 2) + beDecode ((b.drop 2).take 2) + beDecode ((b.drop 4).take 2)) :
+    Ssl2.dec3 b = .error .truncated :=
+  Ssl2.dec3_truncated b h
+
+example : Ssl2.dec3 [0, 1, 0, 0, 0, 2, 7, 8, 9, 5] = .ok (([7], [], [8, 9]), [5]) := by decide
+example : Ssl2.dec3 [0, 1, 0, 0, 0, 3, 7, 8, 9] = .error .truncated := by decide
+
+/-- SSLv2 ClientHello / ServerHello / ClientMasterKey: parsing what `write()` produced returns the
+    value (the ClientHello challenge left-padded to 32 bytes, as the parser stores it) and
+    exactly the bytes that followed -/
+theorem ssl2_clientHello_roundtrip (a m : Nat) (cs : Val) (sid ch b r : Bytes)
+    (h : Ssl2.chEncode (.pair (.nat a) (.pair (.nat m) (.pair cs (.pair (.bytes sid) (.bytes ch))))) = some b) :
+    Ssl2.chDecode (b ++ r) =
+      .ok (.pair (.nat a) (.pair (.nat m) (.pair cs (.pair (.bytes sid) (.bytes (Ssl2.pad32 ch))))), r) :=
+  Ssl2.ch_decode_encode a m cs sid ch b r h
+
+theorem ssl2_serverHello_roundtrip (hit ct a m : Nat) (cert : Bytes) (cs : Val) (sid b r : Bytes)
+    (h : Ssl2.shEncode (.pair (.nat hit) (.pair (.nat ct) (.pair (.nat a) (.pair (.nat m)
+          (.pair (.bytes cert) (.pair cs (.bytes sid))))))) = some b) :
+    Ssl2.shDecode (b ++ r) =
+      .ok (.pair (.nat hit) (.pair (.nat ct) (.pair (.nat a) (.pair (.nat m)
+          (.pair (.bytes cert) (.pair cs (.bytes sid)))))), r) :=
+  Ssl2.sh_decode_encode hit ct a m cert cs sid b r h
+
+theorem ssl2_clientMasterKey_roundtrip (cipher : Nat) (ck ek ka b r : Bytes)
+    (h : Ssl2.cmkEncode (.pair (.nat cipher) (.pair (.bytes ck) (.pair (.bytes ek) (.bytes ka)))) = some b) :
+    Ssl2.cmkDecode (b ++ r) = .ok (.pair (.nat cipher) (.pair (.bytes ck) (.pair (.bytes ek) (.bytes ka))), r) :=
+  Ssl2.cmk_decode_encode cipher ck ek ka b r h
+
+example : Ssl2.chDecode [0, 2, 0, 3, 0, 0, 0, 1, 1, 2, 3, 9] =
+    .ok (.pair (.nat 0) (.pair (.nat 2) (.pair (.cons (.nat 0x010203) .nil)
+      (.pair (.bytes []) (.bytes (List.replicate 31 0 ++ [9]))))), []) := by decide
+-- a cipher-spec length that is not a multiple of 3 is refused
+example : ∃ e, Ssl2.chDecode [0, 2, 0, 4, 0, 0, 0, 0, 1, 2, 3, 9] = .error e := ⟨.trailing, by decide⟩
+
 /-! ## every concrete tlslite format is an instance -/
 
 /-- the regenerated dispatch dictionaries of extensions.py name only classes the model has a
@@ -298,6 +364,13 @@ example : ∃ e, Parser.lcList (Parser.liftDecode (decode (varBytes 1) 0)) 1 (Pa
 theorem extTables_known :
     (Gen.ExtTable.universal ++ Gen.ExtTable.server ++ Gen.ExtTable.certificate ++
       Gen.ExtTable.hrr).all (fun kc => kc.2 != .unknown) = true := by decide
+
+/-- every class registered in the dispatch dictionaries of the current source (generated list) is
+    in the model's table of extension classes and has a format of its own there -/
+theorem ext_registered_classes_have_formats :
+    Gen.ExtTable.registered.all (fun c =>
+      c != .unknown && Msgs.allExtCls.contains c && !Msgs.isFail (Msgs.extBody c) &&
+      wf true (Msgs.extBody c)) = true := by decide
 
 /-- every extension_data format may end its region (is parsed from exactly its bytes) -/
 theorem msgs_extBody_wf : Msgs.allExtCls.all (fun c => wf true (Msgs.extBody c)) = true := by decide
@@ -316,6 +389,7 @@ theorem msgs_table_wf :
     (framing + the parser's own extra condition `post`) … -/
 theorem msgs_decode_encode (name : String) (m : Msgs.Msg) (hm : (name, m) ∈ Msgs.table)
     (v : Val) (b r : Bytes) (he : m.encode v = some b) (hp : m.post v = true)
+    (hd : Msgs.noDupTags m.fmt 0 v = true)
     (hr : m.exact = true → r = []) : m.decode (b ++ r) = .ok (v, r) := by
   have hwf : wf m.exact m.fmt = true := by
     have := List.all_eq_true.mp msgs_table_wf (name, m) hm
@@ -324,13 +398,14 @@ theorem msgs_decode_encode (name : String) (m : Msgs.Msg) (hm : (name, m) ∈ Ms
   unfold Msgs.Msg.encode at he
   rw [decode_encode_gen m.fmt m.exact 0 v b r hwf he hr]
   by_cases hx : m.exact = true
-  · simp [hr hx, hp]
-  · simp [hx, hp]
+  · simp [hr hx, hp, hd]
+  · simp [hx, hp, hd]
 
 /-- … and whatever the model of a real parser accepts re-serialises to the bytes consumed -/
 theorem msgs_encode_decode (m : Msgs.Msg) (b : Bytes) (v : Val) (r : Bytes)
     (h : m.decode b = .ok (v, r)) :
-    ∃ e, m.encode v = some e ∧ e ++ r = b ∧ m.post v = true ∧ (m.exact = true → r = []) := by
+    ∃ e, m.encode v = some e ∧ e ++ r = b ∧ m.post v = true ∧ Msgs.noDupTags m.fmt 0 v = true ∧
+      (m.exact = true → r = []) := by
   unfold Msgs.Msg.decode at h
   cases hd : decode m.fmt 0 b with
   | error e => rw [hd] at h; cases h
@@ -341,11 +416,12 @@ theorem msgs_encode_decode (m : Msgs.Msg) (b : Bytes) (v : Val) (r : Bytes)
     by_cases hx : (m.exact && !r'.isEmpty) = true
     · simp [hx] at h
     · simp only [hx] at h
-      by_cases hp : m.post v' = true
+      by_cases hp : (m.post v' && Msgs.noDupTags m.fmt 0 v') = true
       · simp only [hp, if_true, Bool.false_eq_true, if_false, Except.ok.injEq, Prod.mk.injEq] at h
         obtain ⟨rfl, rfl⟩ := h
         obtain ⟨e, he, heb⟩ := encode_decode m.fmt 0 b v' r' hd
-        refine ⟨e, he, heb, hp, ?_⟩
+        simp only [Bool.and_eq_true] at hp
+        refine ⟨e, he, heb, hp.1, hp.2, ?_⟩
         intro hex
         simp only [hex, Bool.true_and, Bool.not_eq_true', Bool.not_eq_false] at hx
         cases r' with
@@ -356,5 +432,11 @@ theorem msgs_encode_decode (m : Msgs.Msg) (b : Bytes) (v : Val) (r : Bytes)
 example : ({ fmt := Msgs.keyUpdate } : Msgs.Msg).decode [0, 0, 1, 1] = .ok (.nat 1, []) := by decide
 example : ({ fmt := Msgs.changeCipherSpec, exact := true } : Msgs.Msg).decode [1, 1] =
     .error .trailing := by decide
+-- EncryptedExtensions with the same (unknown) extension type twice is refused, once is fine
+example : ({ fmt := Msgs.encryptedExtensions } : Msgs.Msg).decode
+    [0, 0, 10, 0, 8, 0xfa, 0xfa, 0, 0, 0xfa, 0xfa, 0, 0] = .error .rejected := by decide
+example : ({ fmt := Msgs.encryptedExtensions } : Msgs.Msg).decode
+    [0, 0, 10, 0, 8, 0xfa, 0xfa, 0, 0, 0xfa, 0xfb, 0, 0] =
+      .ok (.cons (.pair (.nat 0xfafa) (.bytes [])) (.cons (.pair (.nat 0xfafb) (.bytes [])) .nil), []) := by decide
 
 end Tls.C15
